@@ -2,7 +2,7 @@
 
 use crate::{
     cf_types::ConditionalFormatting,
-    constants::COLUMN_WIDTH_FACTOR,
+    constants::{COLUMN_WIDTH_FACTOR, DEFAULT_COLUMN_WIDTH},
     expressions::types::Area,
     types::{ArrayKind, Cell, Style},
     UserModel,
@@ -285,7 +285,12 @@ impl<'a> UserModel<'a> {
                             worksheet.update_cell(*row, c, cell.clone())?;
                         }
                         if let Some(col) = &col_data.column {
-                            let width = col.width * COLUMN_WIDTH_FACTOR;
+                            // a descriptor without a custom width shows the default width whatever it stores
+                            let width = if col.custom_width {
+                                col.width * COLUMN_WIDTH_FACTOR
+                            } else {
+                                DEFAULT_COLUMN_WIDTH
+                            };
                             let style = col.style;
                             let hidden = col.hidden;
                             worksheet.set_column_width_and_style(c, width, hidden, style)?;
